@@ -85,6 +85,12 @@ C19_DecNoOverRead == IsDec => (DecDet /\ ZapiConsumedOk /\ (row.proto = "zapi" =
 (* a record cut short (its own header says it is longer, or the header itself is incomplete) is not decoded *)
 C19_DecTruncRejected == (IsDec /\ row.m = "trunc" /\ Incomplete) => row.err
 Gap_Trunc == (IsDec /\ row.m = "trunc" /\ ~(row.proto = "mrt" /\ HaveHdr /\ MrtType \in MrtET)) => Incomplete
+(* harness sanity: "every offset" of the generator really is every offset of the record *)
+LenBound == CASE row.proto = "mrt" -> 130 [] row.proto = "bmp" -> 170 [] row.proto = "rtr" -> 36
+              [] row.proto = "bfd" -> 28 [] OTHER -> 80
+Gap_Bound == (IsDec /\ row.m = "none") => row.full <= LenBound + 1
+(* harness sanity for "cut": the header declares exactly the octets given *)
+Gap_Cut == (IsDec /\ row.m = "cut") => (HaveHdr /\ ~D.huge /\ D.val = row.n - row.trail)
 (* the length field an encoder writes is the length of the record it wrote *)
 EncodedLengthOk == HaveHdr /\ ~D.huge /\ D.val = row.full
 C19_EncodedLength == (IsDec /\ row.m = "none") => EncodedLengthOk
